@@ -132,6 +132,16 @@ def run_modes(cfg, prior_name, seq, poller=None):
     modes = r.call(inv.get_operation_modes, True)[1]
     vio = []
     n = 0
+    if poller == 'getter-first':
+        # the application looks at the mode before changing it: the inverter is in ECO work mode with the prior group 1
+        # (whatever the getter makes of that content - it may raise - must not outlive the setter)
+        poller = None
+        if cfg['family'] == 'ET':
+            dev.rf.set(47000, 3)
+        else:
+            dev.settings[66:68] = bytes([0, 3])
+        r.call(inv.get_operation_mode)
+        r.call(inv.get_operation_mode)
     for (m, p, soc) in seq:
         if m not in modes:
             continue
@@ -237,12 +247,12 @@ def job_e2e(j):
     for seq in seqs:
         if prior_name == 'undecodable' and seq[0][0] not in (OM.ECO_CHARGE, OM.ECO_DISCHARGE):
             continue
-        if poller and not (len(seq) == 1 and seq[0][0] in (OM.ECO_CHARGE, OM.ECO_DISCHARGE) and seq[0][1:] in ((55, 50), (9, 50))):
+        if poller and poller != 'getter-first' and not (len(seq) == 1 and seq[0][0] in (OM.ECO_CHARGE, OM.ECO_DISCHARGE) and seq[0][1:] in ((55, 50), (9, 50))):
             continue
         vio, k = run_modes(cfg, prior_name, seq, poller)
         n += k
         for key, cause in vio:
-            kk = f"{key}/{cfg['name']}/prior:{prior_name}" + (f"/while-polling:{poller.split('@')[0]}" if poller else '')
+            kk = f"{key}/{cfg['name']}/prior:{prior_name}" + ('/after-a-getter-call' if poller == 'getter-first' else f"/while-polling:{poller.split('@')[0]}" if poller else '')
             out.setdefault(kk, []).append(dict(key=kk, clause=key.split('/')[0],
                                                replay=dict(part='e2e', cfg=cfg, prior=prior_name, poller=poller,
                                                            seq=[[m.name, p, s] for m, p, s in seq]),
@@ -371,6 +381,7 @@ def run(tier, seed, rep):
         for prior in (PRIORS_V2 if cfg['v2'] else PRIORS_V1):
             jobs.append((cfg, prior))
             jobs.append((cfg, prior, 'same'))
+            jobs.append((cfg, prior, 'getter-first'))
             for pos in range(0, 16):
                 jobs.append((cfg, prior, f'same@{pos}'))
     n_e2e = 0
